@@ -208,6 +208,8 @@ def run_case(c):
     from ..wholecore import heavy_gap, rand_wemask
     r = random.Random(c["seed"])
     aw, dw = r.choice([12, 12, 28]), 32        # small and large address spaces (the top address bits must cross too)
+    if random.Random(c["seed"] + "/wide").random() < 0.25:
+        dw = 256                                # more byte enables than address bits
 
     class DUT(Module):
         def __init__(self):
